@@ -8,7 +8,7 @@ stripentities, is_safe_uri, sanitize_css) and the real functions.
 """
 import hashlib, json, random, re, unicodedata
 from harness import proto, gen_soup
-from harness.framework import Result, pmap
+from harness.framework import Result, pmap, Hang, deadline
 from harness.proto import Atom, B, N
 
 PROP = 'C06'
@@ -434,6 +434,9 @@ def exc_name(ex):
     return type(ex).__name__
 
 
+_HUNG = False
+
+
 def run_real(case):
     """-> dict(status='ok'|'parse-error'|'raised', inp=[jev], out=[jev], kept=[idx], exc=...)"""
     from genshi.input import HTML, ParseError
@@ -447,8 +450,15 @@ def run_real(case):
     else:
         evs = [jev_to_genshi(e, (None, i, 0)) for i, e in enumerate(case['events'])]
     inp = [genshi_to_jev(e) for e in evs]
+    global _HUNG
     try:
-        out = list(san(iter(evs)))
+        # termination is part of the property: a call that does not come back is a failure with this input
+        # (after the first one the limit drops, so that a change that hangs on everything still ends the check)
+        with deadline(5 if _HUNG else 120):
+            out = list(san(iter(evs)))
+    except Hang as ex:
+        _HUNG = True
+        return {'status': 'raised', 'exc': 'does not terminate: %s' % ex, 'inp': inp, 'r': r}
     except Exception as ex:   # noqa: totality is the property
         return {'status': 'raised', 'exc': '%s: %s' % (exc_name(ex), str(ex)[:120]), 'inp': inp, 'r': r}
     return {'status': 'ok', 'inp': inp, 'out_events': out, 'out': [genshi_to_jev(e) for e in out],
